@@ -17,14 +17,15 @@ def claim(pid, category, technique, text, note, ref):
 
 
 claim("C02", "proof",
-      "conditional constant propagation over integer regions + exhaustive region/outcome comparison (AST)",
-      "Every site that turns a function length into a category-dependent outcome (profiles, counters, colours, "
-      "symbols, check list, findings list) is folded over all integer regions induced by the literals it compares "
-      "with and compared with the partition 15/30/60; check's exit status and quiet/report decision are an "
-      "enumerated 18-row truth table. Finite case analysis, all obligations discharged = proof for the decision "
-      "logic; rendering by Rich is not covered.",
-      "Trusted: CPython ast, Python int comparison semantics, sa.core call resolution. Assumes lengths are ints >= 1.",
-      "DESIGN.md 4/C02")
+      "abstract evaluation of every decision site over the integer regions induced by the literals it can compare with (effects recorded, nothing executed) + conditional constant propagation + enumerated truth tables",
+      "Every site that turns a function length into a category-dependent outcome (profiles, counters, colours, symbols, check "
+      "list, findings list) is evaluated from its source for one length per region and both sides of every cut - the cuts are all "
+      "integer literals reachable from the site, collected on every run - and compared with the partition 15/30/60 (thorough: every "
+      "length 1..5000); check's exit status and quiet/report decision are an enumerated 18-row truth table, the summary count a 4-row "
+      "table. Finite case analysis, all obligations discharged = proof for the decision logic; rendering by Rich is not covered.",
+      "Trusted: CPython ast, Python int comparison semantics, sa.core call resolution, sa.absint's semantics of the Python subset. "
+      "Assumes lengths are ints >= 1 and that a site depends on the length only through comparisons with reachable integer literals.",
+      "DESIGN.md 4/C02, 12.3")
 
 claim("C15", "proof",
       "symbolic evaluation of the pattern DSL + abstract interpretation of predicate classes + exhaustive product exploration (DFA state x depth class x token class)",
@@ -38,23 +39,24 @@ claim("C15", "proof",
       "DESIGN.md 4/C15")
 
 claim("C13", "other",
-      "symbolic interpretation of Operator.apply bodies + DFA language equivalence; guard/dominance rules on the call graph (AST)",
-      "Partial, structural: each operator's wiring is interpreted symbolically and its language compared with the "
-      "operator's regular expression by DFA equivalence (exact for the wiring); every edge-following recursion or "
-      "worklist in the engine must carry a threaded visited guard (termination of construction on epsilon cycles); "
-      "predicate __eq__/__hash__ coherence; shape of subset construction and of match/starts_with. Matching "
-      "semantics on inputs (match <=> membership) is NOT decided by this family.",
-      "Trusted: Thompson invariants of sub-automata (fresh start/accepting states), CPython ast.",
-      "DESIGN.md 4/C13")
+      "abstract interpretation of the engine's own source (expression_to_nfa, nfa_to_dfa, match, starts_with) on the repo's operator objects + language equivalence with a reference construction; visited-guard and eq/hash rules (AST)",
+      "Bounded-exhaustive: for every pattern tree of a bounded family over {a, b} (quick 190 trees incl. targeted depth 3; thorough the "
+      "full depth-3 family of 1752) the automaton built by the interpreted engine is deterministic and language-equivalent to the "
+      "reference; match reports exactly the words of the language and starts_with the shortest non-empty prefix for all sequences up "
+      "to length 3. Plus: every edge-following recursion carries a threaded visited guard; predicate __eq__/__hash__ coherence. "
+      "Patterns beyond the family and stateful predicates (C15) are not covered by this check.",
+      "Trusted: sa.absint's semantics of the Python subset; reference Thompson/subset construction of the checker.",
+      "DESIGN.md 4/C13, 12.3")
 
 claim("C14", "other",
-      "guard-dominance (contradiction between sibling sites) + abstract interpretation of Balanced over depth x token classes (AST)",
-      "Partial, structural: every result-append in find_all must be dominated by the disjointness guard, by an "
-      "accepting test and (main loop) by a cannot-continue condition; match ends are exclusive and used as such by "
-      "get_headers; Balanced's transfer table is derived from its source and compared with the specification for "
-      "depths 0..3; order preservation. Soundness/longest/completeness over all inputs is NOT decided.",
-      "Trusted: CPython ast; statement-tree dominance (no goto-like constructs in find_all).",
-      "DESIGN.md 4/C14")
+      "exhaustive oracle exploration of find_all's control logic over abstract attempts (abstract interpretation of the source, execution-tree enumeration) + abstract interpretation of Balanced over depth x token classes",
+      "Bounded-exhaustive: find_all is evaluated on sequences of n symbolic items with abstract attempts - accepting / no outgoing "
+      "transition / consumes the next item answered by an oracle, every combination enumerated - and reports exactly the matches of the "
+      "reference semantics (start order, disjoint also at end of input, only accepting attempts that cannot continue, end = first item "
+      "not consumed): n = 2 complete and n = 3 without dead ends (quick), n = 3 complete (thorough). Balanced's transfer table from its "
+      "source for depths 0..3; exclusive ends used as such by get_headers. Longer sequences and the language-level clauses are not decided.",
+      "Trusted: sa.absint's semantics of the Python subset; the abstraction of Pattern by (accepting, dead end, consumes) per consumed count.",
+      "DESIGN.md 4/C14, 12.3")
 
 claim("C06", "other",
       "effect analysis over the CHA call graph: set-iteration classification, predicate-receiver provenance, global-state write inventory, nondeterministic-source reachability (AST)",
@@ -66,13 +68,14 @@ claim("C06", "other",
       "DESIGN.md 4/C06")
 
 claim("C08", "other",
-      "f-string placeholder classification by quote parity + escaping-wrapper recognition + declared field types; writer/reader key-tree extraction and comparison (AST)",
-      "Structure of the hand-written serializer and the reader: every emitted value is json.dumps-escaped or declared int/list[int]; "
-      "the reader's key paths exist in the writer's reconstructed key tree; version/uuid/root/repository are restored unmodified; "
-      "pretty and compact branches are equal up to whitespace; the parsed document is not shared and mutated. Values whose run-time "
-      "type differs from the declaration are not covered.",
-      "Trusted: json.dumps/json.loads; dataclass / __init__ annotations tell the truth about field types.",
-      "DESIGN.md 4/C08")
+      "abstract interpretation of ReportWriter / ReportReader on a report built through the repo's constructors (json.dumps/loads real, everything else interpreted) + textual schema rules (f-string placeholder classification, key trees)",
+      "Round trip evaluated: every string field carries a distinct tag plus quote, backslash, newline, tab, control, non-ASCII and U+2028 "
+      "characters, every number is distinct; pretty and compact documents are valid JSON and parse to the same value; the re-read report "
+      "equals the written one (version, identifier, root, repository, files in order with checksum, language, line total, measurements, "
+      "totals, folder profiles); re-writing reproduces the document up to the timestamp; with/without repository, version string/null. "
+      "Plus structural: restoration without fallback, no shared mutable parse result. String classes not represented are not covered.",
+      "Trusted: json.dumps/json.loads; sa.absint's semantics of the Python subset.",
+      "DESIGN.md 4/C08, 12.3")
 
 claim("C09", "other",
       "guard dominance + def-use provenance of the cached entry, version-guard effectiveness, who-may-call table (AST)",
@@ -111,12 +114,13 @@ claim("C03", "other",
       "DESIGN.md 4/C03")
 
 claim("C07", "other",
-      "accumulator specifications by def-use provenance, integer-region folding of the profile functions, guard dominance for tree maintenance, aggregation-order and stale-memo rules (AST)",
-      "Agreement of the redundant views decided as accumulator rules: LanguageTotals.add terms, one bucket per function (C02 folding), "
-      "per-field sums, position-wise merge, add_file/add_folder guards, aggregate computed children-first and applied exactly once after "
-      "the last add_file, no memoised attribute left stale by a mutator. Unusual path strings are not decided.",
-      "Trusted: CPython ast; C02-R1 category boundaries.",
-      "DESIGN.md 4/C07")
+      "symbolic effects of the accumulators (linear forms), abstract evaluation of the profile functions, guard dominance for tree maintenance, aggregation-order and stale-memo rules (AST)",
+      "Agreement of the redundant views: LanguageTotals.add evaluated symbolically (files += 1, loc += entry.loc, functions += len(ms), "
+      "hard/unmaintainable += count-profile cells 2/3), ScanTotals.total_X on two generic language totals, merge_profiles on symbolic "
+      "cells, one bucket per function (C02's evaluation), add_file/add_folder guards, aggregate computed children-first and applied "
+      "exactly once after the last add_file, no memoised attribute left stale by a mutator. Unusual path strings are not decided.",
+      "Trusted: CPython ast; sa.absint; C02-R1 category boundaries.",
+      "DESIGN.md 4/C07, 12.3")
 
 claim("C12", "other",
       "sibling cross-check: pipeline signatures (walk, exclusion, lexer gate, decoding, lex constant, measuring, post-processing) extracted by def-use and compared (AST)",
@@ -127,21 +131,24 @@ claim("C12", "other",
       "DESIGN.md 4/C12")
 
 claim("C18", "other",
-      "role provenance (current/previous), folding of the ten delta methods over value pairs, header/cell field agreement, findings truncation folded with def-use resolution of the rendered list (AST)",
-      "Field / role / constant agreement: every delta construction gets (current, previous); each delta method annotates with current - previous, "
-      "signed, exactly when they differ (9 value pairs each); columns show the field of their header; languages ordered by LOC; findings show "
-      "all N or exactly the first 10 on every branch with the 'N - 10 more' message under the same condition. Rich layout / locale formatting not decided.",
-      "Trusted: parameter names state roles; CPython ast.",
-      "DESIGN.md 4/C18")
+      "abstract interpretation of the overview and findings renderers on tagged reports (rich calls recorded as effects, nothing executed); first-generation role/field rules as fallback",
+      "Evaluated: rows are the current report's languages by lines of code; every cell shows the figure named by its column header; "
+      "figures of a language present in both reports and the totals are annotated with current - previous, signed, exactly when they "
+      "differ (equal, larger, smaller, 0->n, n->0, 0->0); text and Markdown agree cell by cell; with, without and with an empty "
+      "comparison report; findings: threshold 30, all when full or at most 10, else the first 10 and N - 10 omitted, N = 9..12, with and "
+      "without repository. Rich layout and locale grouping are not decided.",
+      "Trusted: sa.absint's semantics of the Python subset and of format specs (Python's own format()).",
+      "DESIGN.md 4/C18, 12.3")
 
 claim("C19", "other",
-      "linear normal form of the percentage identity, folded verdict decision table with sibling agreement, zero-guard dominance, form-based rounding rules (AST)",
-      "Decided: the shown percentages sum to 100 identically; both summaries choose the verdict by unmaintainable > 0, else hard-to-maintain > 20; "
-      "divisions by the total are guarded; the rounded-up terms have the form ceil(S - c), c <= 0.001 (never 0 % above 0.001 %); range: the "
-      "remainder of independently rounded-up terms can be negative - a genuine defect of today's tree, listed as a known finding. Accuracy "
-      "within two points is not decided.",
-      "Trusted: CPython ast; ceil/round semantics for the recognised forms.",
-      "DESIGN.md 4/C19")
+      "symbolic evaluation of quality_profile_percentage (linear identity over uninterpreted rounding terms), evaluated renderers for the verdict table, form rules for rounding (AST + abstract interpretation)",
+      "Decided: the four percentages sum to 100 identically; each rounded term comes from its own profile cell; both summaries and the "
+      "table show easy+verbose, hard-to-maintain, unmaintainable and choose the verdict by unmaintainable > 0, else hard-to-maintain > 20 "
+      "(8 boundary pairs, both renderers agree); the all-zero profile divides by nothing; the rounded-up terms have the form "
+      "ceil(S - c), c <= 0.001; range: the remainder of independently rounded-up terms can be negative - a genuine defect of today's "
+      "tree, listed as a known finding. Accuracy within two points is not decided.",
+      "Trusted: CPython ast; sa.absint; ceil/round semantics for the recognised forms.",
+      "DESIGN.md 4/C19, 12.3")
 
 claim("C01", "other",
       "def-use provenance of token lists, half-open interval comparison rule, provenance of the Measurement's arguments (AST)",
@@ -161,29 +168,34 @@ claim("C04", "other",
       "DESIGN.md 4/C04")
 
 claim("C05", "other",
-      "def-use pairing of loc with measurements, order typestate (ASC/DESC) through sorting/reversal/filtering/folding, provenance of name token and span (AST)",
-      "Partial: file total = sum of the lengths stored with it at the three construction sites; source order by an order typestate from "
-      "sort_headers (tuple key) through the reversed construction and re-reversal, order-preserving filters, single placement in fold_scopes and "
-      "pre-order unfolding; name token from the header's own match; span construction (shared with C01). Numeric bounds are NOT decided.",
-      "Trusted: sorted/list.reverse semantics; CPython ast.",
-      "DESIGN.md 4/C05")
+      "symbolic evaluation of the sort key, order typestate dataflow through construction / filtering / folding, emission order of the tree walk, def-use pairing of loc with measurements (AST)",
+      "Partial: file total = sum of the lengths stored with it at the three construction sites; sort_headers orders by (line, column) of "
+      "the header's first token in the direction of its reverse parameter (key evaluated on an open term: lambdas, key factories, negated "
+      "keys); the order typestate is 'ascending position' at the return of scope construction and through build_scopes; single placement "
+      "in fold_scopes; pre-order unfolding; name token from the header's own match; span construction (shared with C01). Numeric bounds "
+      "are NOT decided.",
+      "Trusted: sorted/list.reverse semantics; CPython ast; sa.absint.",
+      "DESIGN.md 4/C05, 12.3")
 
 claim("C16", "other",
-      "folding of lex on filter_comments, abstract filter table, linear normal form of the position formula, one-line-convention and newline-boundary rules (AST)",
-      "Partial: what lex keeps (both return paths + the filter's abstract table), lexer order preserved, column = offset - line start + 1 with "
-      "the special case agreeing with the general case, a single line-break convention ('\\n' only, no splitlines) across the position code, and "
-      "the newline-boundary choice for the recognised table-search forms (strict > / bisect_left). General correctness of the offset arithmetic "
-      "under arbitrary rewrites is NOT decided (needs an integer loop invariant).",
-      "Trusted: pygments yields increasing non-overlapping offsets and only '\\n' ends a line; CPython ast.",
-      "DESIGN.md 4/C16")
+      "abstract evaluation of lex with the lexer's tuples and the newline table supplied (position formula on all pieces and breakpoints, filter flags), line-convention and order rules (AST)",
+      "Partial: what lex keeps (filter_tokens flags per filter_comments, plus the filter's abstract table), lexer order preserved, "
+      "position = (newlines strictly before the offset + 1, offset - offset after the preceding newline + 1) on interior and boundary "
+      "points of every piece, with, without, adjacent and leading newlines - in particular a token at a newline's offset stays on the "
+      "line that newline ends; a single line-break convention ('\\n' only, no splitlines). Assumes the position depends on the offset "
+      "only through comparisons with the newline table and linear arithmetic.",
+      "Trusted: pygments yields increasing non-overlapping offsets and only '\\n' ends a line; sa.absint.",
+      "DESIGN.md 4/C16, 12.3")
 
 claim("C17", "other",
-      "path enumeration with symbolic substitution of the marker predicate, provenance of the filter condition and of the filter's position (AST)",
-      "Partial: on every path of the predicate the tested text is token.value -> case-folded -> leader removed by a slice of its length -> stripped "
-      "-> startswith('nocl'); a scope is dropped iff its name token's line is a marker line; markers come from the raw tokens; the filter sits "
-      "between pairing and nesting. That neighbours keep name, span and length inherits C01's undecided main clause.",
-      "Trusted: str.lower/strip/startswith semantics; CPython ast.",
-      "DESIGN.md 4/C17")
+      "abstract evaluation of the marker predicate over classes of comment text x token kinds; dataflow location of the marker filter (membership test, element, polarity, position) (AST)",
+      "Partial: a comment qualifies exactly when its text, after the leader (#, //, /*), optional spaces and case-insensitively, begins "
+      "with 'nocl' - decided on 22 text classes (spacing, case, marker later in the text, a later leader+marker) x comment kinds, and "
+      "non-comment tokens never qualify; a scope is dropped iff the line of its header's name token is a marker line; markers come from "
+      "the raw tokens; the filter works on the paired scopes and feeds nesting. That neighbours keep name, span and length inherits "
+      "C01's undecided main clause.",
+      "Trusted: str / re semantics (Python's own); sa.absint.",
+      "DESIGN.md 4/C17, 12.3")
 
 NOT_IMPLEMENTED_YET = "check under construction in this session (see DESIGN.md section 4 for the planned rules)"
 
